@@ -1,5 +1,6 @@
-"""Thorough tier: the property's quick clauses plus a sweep of the generic rules G1, G2, G3, G5, G6, G7, G9, G10, G11 over
-*every* function / class whose primary property (attribution table below) is the one being checked.  A generic finding is
+"""Generic-rule sweep (both tiers; the thorough tier additionally inlines callees to depth 8 in the formula rules): the
+generic rules G1, G2, G2b, G3, G5, G6, G7, G8, G9, G10, G11, G12, G13, G14 over *every* function / class whose primary
+property (attribution table below) is the one being checked.  A generic finding is
 attributed to exactly one property, so a defect in one component never raises another property's alarm."""
 from __future__ import annotations
 
@@ -24,6 +25,28 @@ ATTRIBUTION = [
 ]
 
 
+# Supporting code: modules a property's mechanism is built on although another property owns them.  The call- and
+# argument-level rules (G1, G2, G2b, G12, G13, G14) are also run over these for that property: a crossed wire in a synapse
+# constructor breaks the connection-delay property as much as the synapse property.
+SECONDARY = {
+    "C02": ["functional.interpolation", "functional.extrapolation", "core.tensor"],
+    "C05": ["neural.base"],
+    "C06": ["neural.synapses.", "neural.base", "neural.mixins"],
+    "C09": ["learn.trainers."],
+    "C13": ["core.tensor"],
+    "C14": ["neural.synapses.", "neural.neurons.", "observe.reducers.", "neural.connections."],
+    "C18": ["learn.trainers.delay_adj_", "learn.trainers.kernel_stdp"],
+}
+
+
+def secondary(pid: str, modname: str) -> bool:
+    for suffix in SECONDARY.get(pid, ()):
+        key = "inferno." + suffix
+        if modname == key.rstrip(".") or modname.startswith(key):
+            return True
+    return False
+
+
 def primary(modname: str, clsname: str | None):
     for suffix, cname, prop in ATTRIBUTION:
         key = "inferno." + suffix
@@ -36,8 +59,8 @@ def sweep(ctx):
     P, pid = ctx.prog, ctx.prop
     funcs = [f for f in P.funcs if primary(f.module.name, f.cls.name if f.cls else None) == pid]
     classes = [c for c in P.all_classes if primary(c.module.name, c.name) == pid]
-    ctx.note(f"thorough sweep: {len(funcs)} functions / {len(classes)} classes attributed to {pid}")
-    pre = "T/"
+    ctx.note(f"generic-rule sweep: {len(funcs)} functions / {len(classes)} classes attributed to {pid}")
+    pre = "S/"
     G.g1_signatures(ctx, funcs, rule=pre + "G1")
     G.g2_name_swap(ctx, funcs, rule=pre + "G2")
     G.g3_mangled(ctx, classes, rule=pre + "G3")
@@ -48,3 +71,17 @@ def sweep(ctx):
     G.g9_self_recursion(ctx, funcs, rule=pre + "G9")
     G.g10_identical_arms(ctx, funcs, rule=pre + "G10")
     G.g11_einops(ctx, funcs, rule=pre + "G11")
+    G.g2b_role_tokens(ctx, funcs, rule=pre + "G2b")
+    G.g12_dead_parameter(ctx, funcs, rule=pre + "G12")
+    G.g13_inplace_alias(ctx, funcs, rule=pre + "G13")
+    G.g14_exact_compare(ctx, funcs, rule=pre + "G14")
+    sec = [f for f in P.funcs if f not in set(funcs) and secondary(pid, f.module.name)]
+    if sec:
+        ctx.note(f"supporting code: {len(sec)} functions of modules {SECONDARY[pid]}")
+        pre2 = "S2/"
+        G.g1_signatures(ctx, sec, rule=pre2 + "G1")
+        G.g2_name_swap(ctx, sec, rule=pre2 + "G2")
+        G.g2b_role_tokens(ctx, sec, rule=pre2 + "G2b")
+        G.g12_dead_parameter(ctx, sec, rule=pre2 + "G12")
+        G.g13_inplace_alias(ctx, sec, rule=pre2 + "G13")
+        G.g14_exact_compare(ctx, sec, rule=pre2 + "G14")
